@@ -270,7 +270,7 @@ def run_fuzz_legs(pid, meta, binary_dir_pkg, seconds_scale=1.0):
         os.makedirs(env["VERIF_REPLAY_DIR"], exist_ok=True)
         cachedir = os.path.join(BUILD, "fuzzcache-" + pid.lower() + "-" + target)
         cmd = ["go", "test", "-vet=off", "-run", "^$", "-fuzz", "^" + target + "$", "-fuzztime", "%ds" % secs,
-               "-test.fuzzcachedir", cachedir, "./" + pid.lower() + "/"]
+               "./" + pid.lower() + "/", "-test.fuzzcachedir", cachedir]
         t0 = time.time()
         try:
             r = subprocess.run(cmd, cwd=HARNESS, env=env, stdout=subprocess.PIPE, stderr=subprocess.STDOUT, text=True,
@@ -297,8 +297,9 @@ def run_fuzz_legs(pid, meta, binary_dir_pkg, seconds_scale=1.0):
                 dst = os.path.join(dst_dir, "fuzz-%s-%s" % (target, n))
                 shutil.move(src, dst)
                 vio.append(dst)
-        elif rc not in (0, None):
+        elif rc != 0:
             info[-1]["note"] = "fuzz leg failed without a new crasher: " + out[-1500:]
+            info[-1]["inconclusive"] = True
     return vio, info
 
 
@@ -390,6 +391,9 @@ def check(pid, tier):
         fv, finfo = run_fuzz_legs(pid, meta, None, float(os.environ.get("VERIF_FUZZ_SCALE", "1")))
         violations += fv
         extra_cov["native_fuzz"] = finfo
+        for fi in finfo:
+            if fi.get("inconclusive"):
+                inconclusive.append("native fuzz leg %s: %s" % (fi["target"], fi.get("note", "")[-600:]))
 
     # 4. known findings
     lines = []
